@@ -5,14 +5,14 @@
 wt=$1; m=$2
 cd "$wt" || exit 2
 git checkout -q -- . ; 
-/venv/bin/python "$m/demo.py" >/tmp/vs_demo0.log 2>&1; d0=$?
+/venv/bin/python "$m/demo.py" >/tmp/vs_demo0_$$.log 2>&1; d0=$?
 git apply "$m/patch.diff" || { echo "PATCH DOES NOT APPLY"; exit 3; }
-/venv/bin/python "$m/demo.py" >/tmp/vs_demo1.log 2>&1; d1=$?
+/venv/bin/python "$m/demo.py" >/tmp/vs_demo1_$$.log 2>&1; d1=$?
 if [ "$3" != "nosuite" ]; then
-  /venv/bin/python -m pytest -q -p no:cacheprovider --timeout=900 2>&1 | tail -7 > /tmp/vs_suite.log
-  suite=$(tail -1 /tmp/vs_suite.log)
-  fails=$(grep -c '^FAILED' /tmp/vs_suite.log)
+  /venv/bin/python -m pytest -q -p no:cacheprovider --timeout=900 2>&1 | tail -7 > /tmp/vs_suite_$$.log
+  suite=$(tail -1 /tmp/vs_suite_$$.log)
+  fails=$(grep -c '^FAILED' /tmp/vs_suite_$$.log)
 fi
 git checkout -q -- .
 echo "demo_unchanged_exit=$d0 demo_changed_exit=$d1 suite='$suite' failed_lines=$fails"
-if [ $d0 -eq 0 ] && [ $d1 -ne 0 ]; then echo "DEMO-OK"; else echo "DEMO-BAD"; tail -5 /tmp/vs_demo0.log /tmp/vs_demo1.log; fi
+if [ $d0 -eq 0 ] && [ $d1 -ne 0 ]; then echo "DEMO-OK"; else echo "DEMO-BAD"; tail -5 /tmp/vs_demo0_$$.log /tmp/vs_demo1_$$.log; fi
